@@ -7,9 +7,9 @@
    Not covered by proof (DESIGN.md section 7, C19): data races on Go memory (searched by the race
    detector in checks/c19.py) and the semantics of Go channels/select (assumed as modelled).   *)
 From Coq Require Import List Bool Arith PeanoNat Permutation.
-From Knut Require Import Model.Pipe Model.PipeLoader Spec.PipeSpec.
+From Knut Require Import Model.Pipe Model.PipeLoader Model.PipeFromPath Spec.PipeSpec.
 From Knut Require Import Proofs.PipeInv Proofs.PipeProofs Proofs.PipeLive Proofs.PipeTrace
-                         Proofs.PipeExact Proofs.PipeLoaderProofs.
+                         Proofs.PipeExact Proofs.PipeLoaderProofs Proofs.PipeFromPathProofs.
 Import ListNotations.
 
 (* Ownership.  In every reachable state: of two nodes (source 0, stages 1..n, sink n+1) holding
@@ -257,6 +257,106 @@ Proof. exact self_include_unbounded. Qed.
 Print Assumptions C19_loader_cycle_unbounded.
 
 (* ------------------------------------------------------------------------------------------
+   journal.FromPath with its three consumers (Model/PipeFromPath.v).  Oracles: [bad f] parsing f
+   fails, [cbad f] converting f fails, [abad f] Builder.Add fails on f (constantly false in knut as
+   it is: Add fails only on a directive type that model.ParseDirective never produces).
+   [drain = true] is the code as it is: model.FromStream keeps receiving after a conversion error. *)
+
+(* Termination from closure (nothing cancels the outer context).  Every schedule makes at most
+   3 W(root) + 4 effective steps (for every oracle, with or without the drain).  In the code as it
+   is, with a builder that does not fail, a reachable state in which some worker has not returned
+   has an enabled label - no stage blocks forever, whatever fails in the parsers and in the
+   conversion - and after any schedule the canonical scheduler (first enabled label) makes all
+   three workers return within the bound. *)
+Theorem C19_frompath_terminates : forall inc bad cbad abad drain rank root sched,
+  (forall f g, In g (inc f) -> rank g < rank f) ->
+  feffective inc bad cbad abad drain sched (finit inc root) <= 3 * W inc rank root + 4 /\
+  (drain = true -> (forall f, abad f = false) ->
+   let st := frun inc bad cbad abad drain sched (finit inc root) in
+   (ffinished st = false -> exists l, In l (flabels st) /\ fenabled inc bad cbad abad drain st l = true) /\
+   ffinished (fdrain inc bad cbad abad drain (3 * W inc rank root + 4) st) = true).
+Proof.
+  intros inc bad cbad abad drain rank root sched H. split.
+  - rewrite <- (fmu_init inc rank H root). apply feffective_bound_from. exact H.
+  - intros Hd Ha st. pose proof (reachable_fpinv inc bad cbad abad drain rank H root sched) as HI. split.
+    + intros F. exact (fdeadlock_free inc bad cbad abad drain rank root st HI Hd Ha F).
+    + apply (fdrain_finishes_from inc bad cbad abad drain rank H root); auto.
+      rewrite <- (fmu_init inc rank H root). apply frun_fmu. exact H.
+Qed.
+Print Assumptions C19_frompath_terminates.
+
+(* Success.  If the three workers have returned and no error was recorded - whatever the oracles
+   are - then FromPath returns the builder, the files whose directives were added to it are exactly
+   (as a multiset) the files of the include tree, one copy per include path: each file's directives
+   reach the builder exactly once when no file is included twice; no stage failed and nothing was
+   cancelled.  And when no stage function fails, no error is ever recorded. *)
+Theorem C19_frompath_loads_once : forall inc bad cbad abad drain rank root sched,
+  (forall f g, In g (inc f) -> rank g < rank f) ->
+  let st := frun inc bad cbad abad drain sched (finit inc root) in
+  (ffinished st = true -> f_werrs st = [] ->
+     foutcome_of st = FOk (f_added st) /\
+     Permutation (f_added st) (expand inc (rank root) root) /\
+     (NoDup (expand inc (rank root) root) -> NoDup (f_added st)) /\
+     f_bld st = BDone /\ f_perrs st = [] /\ f_cerrs st = [] /\ f_pcancel st = false /\ f_ccancel st = false) /\
+  ((forall f, bad f = false) -> (forall f, cbad f = false) -> (forall f, abad f = false) -> f_werrs st = []).
+Proof.
+  intros inc bad cbad abad drain rank root sched H st.
+  pose proof (reachable_fpinv inc bad cbad abad drain rank H root sched) as HI. split.
+  - intros F We.
+    destruct (ffinished_success inc bad cbad abad drain rank root st HI F We) as (P & B & Pe & Ce & Pc & Cc).
+    repeat split; auto.
+    + unfold foutcome_of. rewrite F, We. reflexivity.
+    + intros ND. apply (Permutation_NoDup (Permutation_sym P) ND).
+  - exact (nofail_no_werrs inc bad cbad abad drain rank root st HI).
+Qed.
+Print Assumptions C19_frompath_loads_once.
+
+(* Errors.  Every error recorded by the outer pool - in particular the first, which FromPath
+   returns - is the error of a stage function that did fail (never the cancellation error of a
+   bystander); and once the three workers have returned, a failure in any of the three stages
+   (a parser task, a conversion task, Builder.Add) makes FromPath return such an error. *)
+Theorem C19_frompath_error : forall inc bad cbad abad drain rank root sched,
+  (forall f g, In g (inc f) -> rank g < rank f) ->
+  let st := frun inc bad cbad abad drain sched (finit inc root) in
+  (forall e, In e (f_werrs st) -> genuine bad cbad abad e = true) /\
+  (ffinished st = true ->
+   (exists t, In t (f_ptasks st) /\ t_st t = PFail) \/
+   (exists c, In c (f_ctasks st) /\ c_st c = CFail) \/ f_bld st = BFail ->
+   exists e, foutcome_of st = FErr e /\ genuine bad cbad abad e = true).
+Proof.
+  intros inc bad cbad abad drain rank root sched H st.
+  pose proof (reachable_fpinv inc bad cbad abad drain rank H root sched) as HI. split.
+  - exact (P_werrs _ _ _ _ _ _ _ _ HI).
+  - intros F Hf.
+    destruct (ffailure_reported inc bad cbad abad drain rank root st HI F Hf) as (e & rest & We & G).
+    exists e. split; [|exact G]. unfold foutcome_of. rewrite F, We. reflexivity.
+Qed.
+Print Assumptions C19_frompath_error.
+
+(* Without the drain (model.FromStream returns at the first conversion error): a reachable state in
+   which nothing is enabled, worker1 has not returned, and a parser task is blocked in Push on
+   syntaxCh with its context not cancelled - knut hangs.  (Seeded change
+   C19b-fromstream-inline-hang.) *)
+Theorem C19_frompath_nodrain_refuted : exists inc bad cbad abad root sched,
+  let st := frun inc bad cbad abad false sched (finit inc root) in
+  ffinished st = false /\ stuck_pusher st = true /\ f_pcancel st = false /\
+  (forall l, fstep inc bad cbad abad false l st = None).
+Proof. exists inc01, none, is1, none, 0, nodrain_sched. exact nodrain_blocks. Qed.
+Print Assumptions C19_frompath_nodrain_refuted.
+
+(* The hypothesis on Builder.Add in C19_frompath_terminates is needed: in the code as it is, if
+   Builder.Add returned an error, the builder would stop receiving, and the next conversion task
+   would block in Push on modelCh forever (the error is recorded but p.Wait never returns).  Not
+   reachable from any journal today (findings/C19-builder-error-latent-hang.md). *)
+Theorem C19_frompath_builder_error_refuted : exists inc bad cbad abad root sched,
+  let st := frun inc bad cbad abad true sched (finit inc root) in
+  ffinished st = false /\ stuck_pusher st = true /\ f_ccancel st = false /\
+  f_werrs st = [WAdd 1] /\
+  (forall l, fstep inc bad cbad abad true l st = None).
+Proof. exists inc01, none, none, is1, 0, addfail_sched. exact builder_error_blocks. Qed.
+Print Assumptions C19_frompath_builder_error_refuted.
+
+(* ------------------------------------------------------------------------------------------
    examples: the hypotheses are satisfiable and the model runs *)
 Definition rr (n : nat) : list label :=   (* one round-robin round over all labels *)
   all_labels n.
@@ -289,3 +389,13 @@ Example C19_example_loader :
   let st := ldrain inc (fun _ => false) (fun _ => false) 40 (linit inc 0) in
   finished st = true /\ got st = [0; 1; 2; 3].
 Proof. vm_compute. split; reflexivity. Qed.
+
+Example C19_example_frompath :
+  let inc := fun f => match f with 0 => [1; 2] | 1 => [3] | _ => [] end in
+  let ok := fdrain inc none none none true 60 (finit inc 0) in
+  let pe := fdrain inc (fun f => f =? 3) none none true 60 (finit inc 0) in
+  let ce := fdrain inc none (fun f => f =? 2) none true 60 (finit inc 0) in
+  foutcome_of ok = FOk [0; 1; 2; 3] /\ foutcome_of pe = FErr (WParse 3) /\ foutcome_of ce = FErr (WConv 2) /\
+  foutcome_of (fdrain inc01 none is1 none true 30
+                 (frun inc01 none is1 none true nodrain_sched (finit inc01 0))) = FErr (WConv 1).
+Proof. vm_compute. repeat split. Qed.
